@@ -4,6 +4,15 @@ import vlib
 
 ACTIONS = ["Init", "Next"]
 
+# read by bin/mkmanifest
+META = {
+    "category": "model_checking",
+    "text": "TLC explores the three transcribed decoder machines exhaustively over 7 character classes up to length 6 (quick) / 8 (thorough) and proves them equal to the RFC 4648 functions, index-safe and error-sticky; every explored text (415k quick) and every octet string over 4 boundary octets is replayed into the real Decoder / decode / SymbolConverter / encoders, and recorded runs on long random texts are validated by TLC against the machines.",
+    "note": "Trusted: TLC, the transcription of RFC 4648 in BaseN.tla, the harness executor. Only accept/reject and decoded octets are compared, not the error class. Texts beyond the explored lengths are sampled (recorded traces), not enumerated.",
+    "technique": "TLA+ spec (BaseN.tla) + TLC exhaustive; spec->impl case replay; impl->spec trace validation",
+    "design_ref": "DESIGN.md §4 C18",
+}
+
 
 def run(ctx):
     thorough = ctx.tier == "thorough"
